@@ -26,8 +26,8 @@ REGISTRY = {
 def _put_classes(repo):
     out = []
     for c in repo.all_classes():
-        f = c.methods.get('put')
-        if f is not None and len([p for p in f.params if p != 'self']) >= 1:
+        f = c.own('put')
+        if f is not None and len([p for p in f.params if p != 'self']) >= 1 and not repo.is_extracted_base(c):
             out.append(c)
     return out
 
@@ -82,7 +82,7 @@ def put_disposes_once(ctx, prop):
         kind = REGISTRY.get(c.name, '')
         if kind not in ('queueing', 'router'):
             continue
-        f = c.methods['put']
+        f = c.own('put')
         paths = ctx.paths(c, f, Options())
         construct = '%s::%s.put' % (f.module.relpath, c.name)
         for p in paths:
@@ -118,9 +118,9 @@ def run_forwards_dequeued(ctx, prop):
     rule = prop + '.C.run_forward'
     n = 0
     for c in ctx.repo.all_classes():
-        if REGISTRY.get(c.name) != 'queueing' or 'run' not in c.methods:
+        if REGISTRY.get(c.name) != 'queueing' or c.own('run') is None:
             continue
-        f = c.methods['run']
+        f = c.own('run')
         if not f.is_generator():
             continue
         paths = ctx.paths(c, f, Options())
@@ -163,9 +163,9 @@ def store_shape_agreement(ctx, prop, only=None):
     for c in ctx.repo.all_classes():
         if only and c.name not in only:
             continue
-        if REGISTRY.get(c.name) != 'queueing' or 'put' not in c.methods or 'run' not in c.methods:
+        if REGISTRY.get(c.name) != 'queueing' or c.own('put') is None or c.own('run') is None:
             continue
-        fp, fr = c.methods['put'], c.methods['run']
+        fp, fr = c.own('put'), c.own('run')
         produced = set()
         for p in ctx.paths(c, fp, Options()):
             for e in p.effects:
@@ -251,9 +251,9 @@ def state_asserts(ctx, prop, only=None):
     for c in ctx.repo.all_classes():
         if only and c.name not in only:
             continue
-        if REGISTRY.get(c.name) != 'queueing' or 'run' not in c.methods:
+        if REGISTRY.get(c.name) != 'queueing' or c.own('run') is None:
             continue
-        f = c.methods['run']
+        f = c.own('run')
         zeroed = set()
         for node in walk_local(f.node):
             if isinstance(node, ast.Assign) and isinstance(node.value, ast.Constant) and node.value.value in (0, 0.0) \
@@ -299,8 +299,8 @@ def spawn_sites(ctx, prop, only=None):
     for c in ctx.repo.all_classes():
         if only and c.name not in only:
             continue
-        f = c.methods.get('run')
-        if f is None or not f.is_generator() or c.name in NOT_SELF_SPAWNED:
+        f = c.own('run')
+        if f is None or not f.is_generator() or c.name in NOT_SELF_SPAWNED or ctx.repo.is_extracted_base(c):
             continue
         init = c.lookup('__init__')
         if init is None:
@@ -360,6 +360,7 @@ def class_method_sets(ctx, prop, only=None):
         for k in S:
             known.add((k[0], k[1].split('.')[0]))
     n = 0
+    known_names = ctx.repo.known_method_names()
     for c in ctx.repo.all_classes():
         if only and c.name not in only:
             continue
@@ -368,6 +369,10 @@ def class_method_sets(ctx, prop, only=None):
         for m, f in c.methods.items():
             base = m.split('.')[0]
             if base.startswith('__') and base != '__copy__':
+                continue
+            if base.startswith('_') and known_names is not None and base not in known_names:
+                # a private hook the change introduced in a base and overrides here: the tables run in this class's
+                # context and dispatch the hook to this definition
                 continue
             inherited = None
             for b in c.mro()[1:]:
@@ -398,11 +403,12 @@ def plain_key(t: str) -> str:
 
 def byte_accounting(ctx, prop):
     """inc/dec pairing: every accept path of a port's put() adds the packet's size to byte_size exactly once;
-    every run() iteration that dequeues subtracts the dequeued packet's size exactly once"""
+    every run() iteration that dequeues releases the dequeued packet's bytes exactly once - by recomputing the occupancy
+    from the packets still waiting (the repaired form) or by subtracting its size"""
     rule = prop + '.C.byte_pairing'
     n = 0
     for c in ctx.repo.subclasses('Port'):
-        fp = c.methods.get('put')
+        fp = c.own('put')
         if fp is None:
             continue
         for p in ctx.paths(c, fp, Options()):
@@ -424,7 +430,7 @@ def byte_accounting(ctx, prop):
             else:
                 ctx.sample(rule, '%s::%s.put' % (fp.module.relpath, c.name), '%s path: byte_size %s' % ('accept' if holds else 'drop', [e.value for e in incs]))
     port = ctx.repo.find_class('Port')
-    fr = port.methods.get('run')
+    fr = port.own('run')
     if fr is None:
         raise AnalysisError('anchor vanished: Port.run')
     for reg in loops_of(ctx.paths(port, fr, Options())):
@@ -437,11 +443,21 @@ def byte_accounting(ctx, prop):
             decs = [e for e in writes if e.value.startswith('-1*%s.size + self.byte_size' % deq[0])]
             # the only other write allowed: back to exactly 0 once nothing is held (after the release, queue empty)
             resets = [e for e in writes if e.value == '0']
-            others = [e for e in writes if e not in decs and e not in resets]
+            # the other form of release: the occupancy is recomputed from what is still waiting, sum / fsum of the sizes
+            # of store.items, after the transmission time has passed (no yield after the recomputation's read)
+            import re as _re
+            recomp = [e for e in writes if _re.fullmatch(
+                r'@?(?:math\.)?f?sum\((?:gen|list)\((%b\d+)\.size for \1 in self\.store\.items(?:@\d+)?\)\)(?:#\d+)?', e.value)]
+            if recomp:
+                idx = p.effects.index(recomp[-1])
+                late = not any(e.kind == 'yield' for e in p.effects[idx:])
+                recomp = recomp if late else []
+            others = [e for e in writes if e not in decs and e not in resets and e not in recomp]
             empty = any(a[0] == 'truthy' and plain_key(a[1]) == 'self.store.items' and not pol for a, pol, _ in p.lits)
             ok = not others and (
-                (len(decs) == 1 and (not resets or (empty and writes.index(resets[0]) > writes.index(decs[0])))) or
-                (len(decs) == 0 and len(resets) == 1 and empty))     # released and reset by one store (value if queue else 0)
+                (len(recomp) == 1 and not decs and not resets) or
+                (not recomp and len(decs) == 1 and (not resets or (empty and writes.index(resets[0]) > writes.index(decs[0])))) or
+                (not recomp and len(decs) == 0 and len(resets) == 1 and empty))     # released and reset by one store (value if queue else 0)
             ctx.ob(rule, ok)
             if not ok:
                 ctx.violation(rule, '%s::Port.run' % fr.module.relpath, 'byte_size writes %s per dequeue' % [e.value for e in writes],
@@ -456,8 +472,9 @@ def override_keeps_base_effects(ctx, prop):
     rule = prop + '.S.override_effects'
     n = 0
     for c in ctx.repo.subclasses('Port', strict=True):
-        fp = c.methods.get('put')
-        if fp is None:
+        # what put() does on an instance of the subclass, whether the subclass overrides put itself or a private hook of it
+        fp = c.lookup('put')
+        if fp is None or ctx.repo.is_extracted_base(c):
             continue
         for p in ctx.paths(c, fp, Options()):
             n += 1
@@ -522,6 +539,10 @@ def send_packet_awaited(ctx, prop, only=None):
                 if not ok and isinstance(p1, ast.YieldFrom) and f.cls is not None and f.name in transmission_methods(f.cls):
                     # delegated inside a transmission method: that method in turn must be spawned and awaited
                     ok = _all_uses_awaited(ctx.repo, f.cls, f.name)
+                if not ok and isinstance(p1, ast.Return) and f.cls is not None and f.name.startswith('_') and not f.name.startswith('__'):
+                    # a private hook that hands the transmission generator to its caller (`return self.send_packet(p)`):
+                    # every use of the hook in turn must be spawned and awaited
+                    ok = _all_uses_awaited(ctx.repo, f.cls, f.name)
                 ctx.ob(rule, ok)
                 construct = '%s::%s' % (f.module.relpath, f.qualname)
                 if ok:
@@ -532,8 +553,10 @@ def send_packet_awaited(ctx, prop, only=None):
     ctx.floor(rule, n, 1 if only and len(only) == 1 else 3 if only else 6, 'uses of send_packet')
 
 
-def _all_uses_awaited(repo, cls, meth) -> bool:
+def _all_uses_awaited(repo, cls, meth, _depth=0) -> bool:
     uses = 0
+    if _depth > 3:
+        return False
     for g in repo.all_functions():
         if g.cls is None or cls not in g.cls.mro() and g.cls not in cls.mro():
             continue
@@ -545,8 +568,13 @@ def _all_uses_awaited(repo, cls, meth) -> bool:
             if isinstance(node, ast.Call) and isinstance(node.func, ast.Attribute) and node.func.attr == meth \
                     and isinstance(node.func.value, ast.Name) and node.func.value.id == 'self':
                 uses += 1
-                if not _spawned_and_awaited(parents, node, g.node):
-                    return False
+                if _spawned_and_awaited(parents, node, g.node):
+                    continue
+                # handed on by a private hook (`return self.serve(p)`): the hook's uses decide
+                if isinstance(parents.get(node), ast.Return) and g.name.startswith('_') and not g.name.startswith('__') \
+                        and _all_uses_awaited(repo, g.cls, g.name, _depth + 1):
+                    continue
+                return False
     return uses > 0
 
 
@@ -556,8 +584,8 @@ def server_yield_whitelist(ctx, prop):
     rule = prop + '.C.yield_whitelist'
     n = 0
     for c in ctx.repo.subclasses('Scheduler', strict=True):
-        f = c.methods.get('run')
-        if f is None or not f.is_generator():
+        f = c.own('run')
+        if f is None or not f.is_generator() or ctx.repo.is_extracted_base(c):
             continue
         paths = ctx.paths(c, f, Options())
         construct = '%s::%s.run' % (f.module.relpath, c.name)
@@ -608,7 +636,7 @@ def sp_rescan(ctx, prop):
     """after every awaited transmission inside the priority scan loop, the scan loop is left before the next dequeue"""
     rule = prop + '.C.rescan'
     c = ctx.repo.find_class('SP')
-    f = c.methods.get('run')
+    f = c.own('run')
     if f is None:
         raise AnalysisError('anchor vanished: SP.run')
     paths = ctx.paths(c, f, Options())
@@ -658,7 +686,7 @@ def stamp_keys(ctx, prop):
     n = 0
     for cn in ('WFQ', 'VC'):
         c = ctx.repo.find_class(cn)
-        f = c.methods.get('put')
+        f = c.own('put')
         if f is None:
             raise AnalysisError('anchor vanished: %s.put' % cn)
         for p in ctx.paths(c, f, Options()):
@@ -699,7 +727,7 @@ def stamp_keys(ctx, prop):
 def ack_depends_on_buffer_only(ctx, prop):
     rule = prop + '.F.ack_flow'
     c = ctx.repo.find_class('TCPSink')
-    f = c.methods.get('put')
+    f = c.own('put')
     if f is None:
         raise AnalysisError('anchor vanished: TCPSink.put')
     n = 0
@@ -729,7 +757,7 @@ def element_id_defined(ctx, prop):
     for c in ctx.repo.all_classes():
         if c is dev or dev not in c.mro() or not c.module.name.startswith('onl.'):
             continue
-        if any(isinstance(d, ast.Name) and d.id == 'ABC' for d in c.node.bases) and not c.methods.get('__init__'):
+        if any(isinstance(d, ast.Name) and d.id == 'ABC' for d in c.node.bases) and not c.own('__init__'):
             continue
         n += 1
         has_default = c.lookup_attr('_element_id') is not None
@@ -805,8 +833,8 @@ def timer_args_shape(ctx, prop):
     """Timer.run splats self.args: the constructor must normalise a scalar, or every call site must pass a list/tuple"""
     rule = prop + '.E.timer_args'
     c = ctx.repo.find_class('Timer')
-    init = c.methods.get('__init__')
-    run = c.methods.get('run')
+    init = c.own('__init__')
+    run = c.own('run')
     if init is None or run is None:
         raise AnalysisError('anchor vanished: Timer')
     splats = any(isinstance(n, ast.Starred) and term(n.value) == 'self.args' for n in walk_local(run.node))
@@ -852,7 +880,7 @@ def network_keys_guarded(ctx, prop):
     """a sequence number taken from an ACK that subscripts sent_packets / timers must be guarded by a membership test"""
     rule = prop + '.F.net_keys'
     c = ctx.repo.find_class('TCPPacketGenerator')
-    f = c.methods.get('put')
+    f = c.own('put')
     if f is None:
         raise AnalysisError('anchor vanished: TCPPacketGenerator.put')
     n = 0
@@ -890,7 +918,7 @@ def copy_aliasing(ctx, prop):
     because the splitters hand copy(packet) to their other outputs and elements write these members downstream"""
     rule = prop + '.F.copy_alias'
     c = ctx.repo.find_class('Packet')
-    init = c.methods.get('__init__')
+    init = c.own('__init__')
     if init is None:
         raise AnalysisError('anchor vanished: Packet.__init__')
     mutable = []
@@ -903,7 +931,7 @@ def copy_aliasing(ctx, prop):
             if isinstance(t, ast.Attribute) and isinstance(t.value, ast.Name) and t.value.id == 'self':
                 if isinstance(v, (ast.Dict, ast.List, ast.Set)) or (isinstance(v, ast.Call) and isinstance(v.func, ast.Name) and v.func.id in ('dict', 'list', 'set', 'dd', 'defaultdict')):
                     mutable.append(t.attr)
-    cp = c.methods.get('__copy__')
+    cp = c.own('__copy__')
     uses_copy = 0
     for f in ctx.repo.all_functions():
         if f.cls is not None and f.cls.name in ('Splitter', 'NSplitter'):
@@ -957,7 +985,7 @@ def timer_no_self_interrupt(ctx, prop):
     the active process"""
     rule = prop + '.C.self_interrupt'
     c = ctx.repo.find_class('Timer')
-    f = c.methods.get('restart')
+    f = c.own('restart')
     if f is None:
         raise AnalysisError('anchor vanished: Timer.restart')
     # call-graph fact: is restart reachable from a timer callback?  (callback edge: Timer(..., timeout_callback=X))
